@@ -453,4 +453,295 @@ theorem seqStep_ls (n : Node) (hk : kok n = true) (hmap : isMap n.kind = false) 
       · rename_i h; exact hself _ _ (wrap_le' hsm h)
       · rename_i h; exact hself _ _ (wrap_le' hsm h)
 
+/-! ### mappings -/
+
+theorem replace_ls' {next n1 : Nat} {kids extra : List Node} {k : Str} {child new : Node}
+    (hk : kokL kids = true) (hn : (kids.map Node.key).Nodup) (hc : findKid kids k = some child)
+    (h : LS next (child :: extra) n1 [new]) : LS next (kids ++ extra) n1 (replaceKid kids k new) := by
+  refine ⟨h.hle, ?_, fun a => ?_⟩
+  · rw [kokL_iff]
+    intro x hx
+    rcases Flatland.C10.Proofs.mem_replaceKid hx with h1 | h1
+    · exact (kokL_iff _).mp hk x h1
+    · rw [h1]; exact kok_single.mp h.hkok
+  · have h1 := wsum_replaceKid (cnt a) kids k new child hn hc
+    have h2 := h.hcnt a
+    simp only [cntL_singleton, cntL_cons] at h2
+    rw [cntL_append, cntL_eq_wsum, cntL_eq_wsum a kids]; omega
+
+theorem setChild_ls (child : Node) (a : Arg) (next : Nat) (hk : kok child = true) :
+    LS next [child] (setChild child a next).next [(setChild child a next).node] := by
+  unfold setChild
+  split
+  · exact setNode_ls _ child none next hk
+  · split
+    · exact (LS.refl next (kok_single.mpr hk)).congr_new
+        (fun x => by rw [cntL_singleton, cntL_singleton, cnt_withScalar]) (by simp [kokL, kok_withScalar])
+    · exact LS.refl next (kok_single.mpr hk)
+
+theorem key_withKey (x : Node) (k : Str) : (x.withKey k).key = k := by cases x; rfl
+theorem key_withScalar (x : Node) (v : Val) (u : Str) : (x.withScalar v u).key = x.key := by cases x; rfl
+
+theorem isMap_of_hdr {r n : Node} (h : r.hdr = n.hdr) : isMap r.kind = isMap n.kind := by
+  unfold Node.kind; rw [sch_of_hdr h]
+
+theorem mapSetItem_ls (n : Node) (hk : kok n = true) (hm : isMap n.kind = true) (key : Str) (a : Arg)
+    (ha : kokL (argElems a) = true) (next : Nat) :
+    LS next (n :: argElems a) (mapSetItem n key a next).next [(mapSetItem n key a next).node] ∧
+      (mapSetItem n key a next).node.hdr = n.hdr := by
+  have hkids : kokL n.kids = true := kokL_of_kok hk
+  have hs : swf n.sch = true := kok_swf hk
+  have hnd : (n.kids.map Node.key).Nodup := ((kok_iff n).mp hk).2.1 hm
+  have hself : ∀ n1, next ≤ n1 → LS next (n :: argElems a) n1 [n] := fun n1 h => keep_ls hk _ h
+  -- `child.set(arg)` on the child stored under the key
+  have hset : ∀ child, findKid n.kids key = some child →
+      LS next (n :: argElems a) (setChild child a next).next [n.withKids (replaceKid n.kids key (setChild child a next).node)] := by
+    intro child hc
+    have hcm := findKid_some hc
+    have h1 := setChild_ls child a next ((kokL_iff _).mp hkids child hcm.1)
+    have h2 : LS next (child :: argElems a) (setChild child a next).next [(setChild child a next).node] :=
+      h1.of_le (fun x => by simp only [cntL_cons, cntL_nil]; omega)
+    refine withKids_ls_map hk ?_ (replace_ls' hkids hnd hc h2)
+    rw [replaceKid_keys _ _ _ (by rw [key_of_hdr (Flatland.C10.Proofs.setChild_hdr child a next)]; exact hcm.2)]
+    exact hnd
+  -- a new child under a key that is not there yet
+  have hnew : ∀ (x : Node) (n1 : Nat), findKid n.kids key = none → x.key = key → LS next (argElems a) n1 [x] →
+      LS next (n :: argElems a) n1 [n.withKids (n.kids ++ [x])] := by
+    intro x n1 hc hxk hx
+    refine withKids_ls_map hk (nodup_keys_append hnd (by rw [hxk]; exact findKid_none hc)) ?_
+    exact (LS.refl next hkids).append hx
+  unfold mapSetItem
+  split
+  · dsimp only
+    split
+    · rename_i hc
+      split
+      · exact ⟨hself _ (Nat.le_refl _), rfl⟩
+      · rename_i f hf
+        have hfm := fieldFor_some hf
+        have hsf : swf f = true := swf_subs hs f hfm.1
+        split
+        · rename_i e
+          have he : kok e = true := by simpa [argElems, kokL] using ha
+          split
+          · refine ⟨hnew _ _ hc (key_withKey _ _) ?_, rfl⟩
+            exact (LS.refl next (kok_single.mpr he)).congr_new
+              (fun x => by rw [cntL_singleton, cntL_singleton, cnt_withKey, cnt_withParent])
+              (by simp [kokL, kok_withKey, kok_withParent])
+          · split
+            · refine ⟨hnew _ _ hc ?_ ?_, rfl⟩
+              · rw [key_withScalar]; exact (hdr_eq_parts (blank_hdr f (some n.id) key next)).2.2.2.1
+              · exact ((blank_ls f (some n.id) key next hsf).congr_new
+                  (fun x => by rw [cntL_singleton, cntL_singleton, cnt_withScalar])
+                  (by simp [kokL, kok_withScalar])).forget
+            · exact ⟨hself _ (Nat.le_refl _), rfl⟩
+        · rename_i r
+          split
+          · rename_i e n1 hcon
+            have := construct_next_le f r (some n.id) key next hsf
+            rw [hcon] at this
+            exact ⟨hself _ this, rfl⟩
+          · rename_i el n1 hcon
+            refine ⟨hnew _ _ hc ?_ (construct_ls f r (some n.id) key next hsf el n1 hcon).forget, rfl⟩
+            exact (hdr_eq_parts (construct_hdr f r (some n.id) key next el (by rw [hcon]))).2.2.2.1
+    · rename_i child hc
+      have hcm := findKid_some hc
+      split
+      · exact ⟨hself _ (Nat.le_refl _), rfl⟩
+      · rename_i f e _
+        have he : kok e = true := by simpa [argElems, kokL] using ha
+        split
+        · refine ⟨withKids_ls_map hk ?_ (replace_ls' hkids hnd hc ?_), rfl⟩
+          · rw [replaceKid_keys _ _ _ (key_withKey _ _)]; exact hnd
+          · exact LS.pure next (by simp [kokL, kok_withKey, kok_withParent, he])
+              (fun x => by simp only [cntL_cons, cntL_nil, cnt_withKey, cnt_withParent, argElems]; omega)
+        · split
+          · exact ⟨hset child hc, rfl⟩
+          · exact ⟨hset child hc, rfl⟩
+      · split
+        · exact ⟨hset child hc, rfl⟩
+        · exact ⟨hset child hc, rfl⟩
+  · split
+    · exact ⟨hself _ (Nat.le_refl _), rfl⟩
+    · rename_i child hc
+      dsimp only
+      split
+      · exact ⟨hset child hc, rfl⟩
+      · exact ⟨hset child hc, rfl⟩
+
+theorem kok_congr_map {r n : Node} (h : r.hdr = n.hdr) (hm : isMap n.kind = true) : isMap r.kind = true := by
+  rw [isMap_of_hdr h]; exact hm
+
+theorem mapUpdatePairs_ls (kvs : List (Str × Raw)) : ∀ (n : Node) (next : Nat), kok n = true → isMap n.kind = true →
+    LS next [n] (mapUpdatePairs n kvs next).next [(mapUpdatePairs n kvs next).node] ∧
+      (mapUpdatePairs n kvs next).node.hdr = n.hdr := by
+  induction kvs with
+  | nil => intro n next hk _; rw [mapUpdatePairs]; exact ⟨LS.refl _ (kok_single.mpr hk), rfl⟩
+  | cons kv rest ih =>
+    intro n next hk hm
+    obtain ⟨k, v⟩ := kv
+    have hs := mapSetItem_ls n hk hm k (.plain v) rfl next
+    simp only [argElems] at hs
+    rw [mapUpdatePairs]
+    split
+    · exact hs
+    · have := ih _ (mapSetItem n k (.plain v) next).next (kok_single.mp hs.1.hkok) (kok_congr_map hs.2 hm)
+      exact ⟨hs.1.trans this.1, this.2.trans hs.2⟩
+
+theorem mapUpdateArgs_ls (kvs : List (Str × Arg)) : ∀ (n : Node) (next : Nat), kok n = true → isMap n.kind = true →
+    kokL (kvs.flatMap (fun p => argElems p.2)) = true →
+    LS next (n :: kvs.flatMap (fun p => argElems p.2)) (mapUpdateArgs n kvs next).next [(mapUpdateArgs n kvs next).node] ∧
+      (mapUpdateArgs n kvs next).node.hdr = n.hdr := by
+  induction kvs with
+  | nil => intro n next hk _ _; rw [mapUpdateArgs]; exact ⟨LS.refl _ (kok_single.mpr hk), rfl⟩
+  | cons kv rest ih =>
+    intro n next hk hm ha
+    obtain ⟨k, a⟩ := kv
+    rw [List.flatMap_cons, kokL_append] at ha
+    have hs := mapSetItem_ls n hk hm k a ha.1 next
+    rw [mapUpdateArgs, List.flatMap_cons]
+    split
+    · exact ⟨hs.1.of_le (fun x => by simp only [cntL_cons, cntL_append]; omega), hs.2⟩
+    · have := ih _ (mapSetItem n k a next).next (kok_single.mp hs.1.hkok) (kok_congr_map hs.2 hm) ha.2
+      refine ⟨?_, this.2.trans hs.2⟩
+      have h1 := hs.1.append (LS.refl (mapSetItem n k a next).next ha.2)
+      exact h1.trans this.1
+
+theorem mapReset_ls (n : Node) (hk : kok n = true) (hm : isMap n.kind = true) (next : Nat) :
+    LS next [n] (mapReset n next).2 [(mapReset n next).1] ∧ (mapReset n next).1.hdr = n.hdr := by
+  have hs : swf n.sch = true := kok_swf hk
+  have hsub : swfL n.sch.subs = true := (swfL_iff _).mpr (swf_subs hs)
+  have hnd : (n.sch.subs.map Schema.key).Nodup := ((swf_iff _).mp hs).1 hm
+  have hbf : ∀ b, LS next [n] (blankFields n.sch.subs n.id b next).2 [n.withKids (blankFields n.sch.subs n.id b next).1] := by
+    intro b
+    refine withKids_ls_map (extra := []) hk (by rw [blankFields_keys]; exact nodup_filter_keys hnd _) ?_
+    exact (blankFields_ls _ _ _ _ hsub).forget
+  unfold mapReset
+  split
+  · exact ⟨hbf _, rfl⟩
+  · split
+    · exact ⟨hbf _, rfl⟩
+    · exact ⟨withKids_ls_map (extra := []) hk (by simp) (LS.nil _ _), rfl⟩
+
+theorem nodup_keys_eraseKey {kids : List Node} (h : (kids.map Node.key).Nodup) (k : Str) :
+    ((eraseKey kids k).map Node.key).Nodup :=
+  List.Nodup.sublist (List.Sublist.map _ List.filter_sublist) h
+
+/-- **identity accounting, mappings, every call.** -/
+theorem mapStep_ls (n : Node) (hk : kok n = true) (hm : isMap n.kind = true) (op : MapOp)
+    (hop : kokL (placedMap op) = true) (next : Nat) :
+    LS next (n :: placedMap op) (mapStep n op next).next [(mapStep n op next).node] ∧
+      (mapStep n op next).node.hdr = n.hdr := by
+  have hkids : kokL n.kids = true := kokL_of_kok hk
+  have hs : swf n.sch = true := kok_swf hk
+  have hnd : (n.kids.map Node.key).Nodup := ((kok_iff n).mp hk).2.1 hm
+  have hself : ∀ extra, LS next (n :: extra) next [n] ∧ n.hdr = n.hdr := fun extra => ⟨keep_ls hk _ (Nat.le_refl _), rfl⟩
+  have herase : ∀ k, LS next [n] next [n.withKids (eraseKey n.kids k)] := by
+    intro k
+    refine withKids_ls_map (extra := []) hk (nodup_keys_eraseKey hnd k) ?_
+    refine LS.pure next (kokL_sub hkids (fun x hx => (List.mem_filter.mp hx).1)) (fun a => ?_)
+    rw [List.append_nil, cntL_eq_wsum, cntL_eq_wsum]; exact wsum_filter_le _ _ _
+  unfold mapStep
+  cases op with
+  | setitem k a => exact mapSetItem_ls n hk hm k a hop next
+  | delitem k =>
+    dsimp only
+    split
+    · split <;> exact hself _
+    · split
+      · split
+        · exact ⟨herase k, rfl⟩
+        · split <;> exact hself _
+      · split
+        · exact hself _
+        · exact hself _
+        · split
+          · exact ⟨herase k, rfl⟩
+          · exact hself _
+  | pop k =>
+    dsimp only
+    split
+    · exact hself _
+    · split
+      · exact hself _
+      · split
+        · exact hself _
+        · split
+          · exact ⟨herase k, rfl⟩
+          · exact hself _
+  | popitem => dsimp only; split <;> exact hself _
+  | clear =>
+    dsimp only
+    split
+    · exact mapReset_ls n hk hm next
+    · exact hself _
+  | update pos kw =>
+    dsimp only
+    split
+    · exact mapUpdatePairs_ls kw n next hk hm
+    · split
+      · exact hself _
+      · exact hself _
+      · rename_i kvs _
+        have h1 := mapUpdatePairs_ls kvs n next hk hm
+        split
+        · exact h1
+        · have h2 := mapUpdatePairs_ls kw _ (mapUpdatePairs n kvs next).next (kok_single.mp h1.1.hkok) (kok_congr_map h1.2 hm)
+          exact ⟨h1.1.trans h2.1, h2.2.trans h1.2⟩
+  | updateArgs kvs => exact mapUpdateArgs_ls kvs n next hk hm hop
+  | ior raw =>
+    dsimp only
+    split
+    · exact hself _
+    · exact hself _
+    · exact mapUpdatePairs_ls _ n next hk hm
+  | setdefault k d =>
+    dsimp only
+    split
+    · exact hself _
+    · split
+      · exact hself _
+      · split
+        · rename_i child hc
+          have hcm := findKid_some hc
+          split
+          · exact hself _
+          · have h1 := setNode_ls d child none next ((kokL_iff _).mp hkids child hcm.1)
+            have hL : LS next [n] (setNode child d none next).next [n.withKids (replaceKid n.kids k (setNode child d none next).node)] := by
+              refine withKids_ls_map (extra := []) hk ?_ (replace_ls' (extra := []) hkids hnd hc h1)
+              rw [replaceKid_keys _ _ _ (by rw [key_of_hdr (setNode_hdr child d none next)]; exact hcm.2)]
+              exact hnd
+            split
+            · exact ⟨hL, rfl⟩
+            · exact ⟨hL, rfl⟩
+        · rename_i hc
+          split
+          · exact hself _
+          · rename_i f hf
+            have hfm := fieldFor_some hf
+            have hb := (blank_ls f none k next (swf_subs hs f hfm.1)).withParent_new (some n.id)
+            have hr := setNode_ls d ((blank f none k next).1.withParent (some n.id)) none (blank f none k next).2
+              (kok_single.mp hb.hkok)
+            have hkey : (setNode ((blank f none k next).1.withParent (some n.id)) d none (blank f none k next).2).node.key = k := by
+              rw [key_of_hdr (setNode_hdr _ d none _), key_withParent]
+              exact (hdr_eq_parts (blank_hdr f none k next)).2.2.2.1
+            have hL : LS next [n] (setNode ((blank f none k next).1.withParent (some n.id)) d none (blank f none k next).2).next
+                [n.withKids (n.kids ++ [(setNode ((blank f none k next).1.withParent (some n.id)) d none (blank f none k next).2).node])] := by
+              refine withKids_ls_map (extra := []) hk (nodup_keys_append hnd (by rw [hkey]; exact findKid_none hc)) ?_
+              have := (LS.refl next hkids).append (hb.trans hr)
+              simpa using this
+            split
+            · exact ⟨hL, rfl⟩
+            · exact ⟨hL, rfl⟩
+  | get k => dsimp only; split <;> exact hself _
+  | set raw pol =>
+    dsimp only
+    split
+    · split <;> exact ⟨setNode_ls _ n _ _ hk, setNode_hdr _ _ _ _⟩
+    · split <;> exact ⟨setNode_ls _ n _ _ hk, setNode_hdr _ _ _ _⟩
+    · split <;> exact ⟨setNode_ls _ n _ _ hk, setNode_hdr _ _ _ _⟩
+  | setDefault => dsimp only; split <;> exact ⟨setDefault_ls n next hk, setDefault_hdr _ _⟩
+  | contains k => exact hself _
+  | len => exact hself _
+
 end Flatland.C08.Proofs
